@@ -187,7 +187,8 @@ func (t *Dense) IsView() bool {
 
 // IsMaterializeable indicates if the Tensor is materializable - if it has either gone through some transforms or slicing
 func (t *Dense) IsMaterializable() bool {
-	return t.viewOf != 0 || !t.old.IsZero()
+	// (a tensor that owns its storage can be non-contiguous too: the clone of a stepped view keeps the view's strides)
+	return t.viewOf != 0 || !t.old.IsZero() || !t.o.IsContiguous()
 }
 
 // IsManuallyManaged returns true if the memory associated with this *Dense is manually managed (by the user)
